@@ -105,11 +105,17 @@ inline int64_t ulpdist(double a, double b, int64_t cap = (1 << 30))
 	return d > cap ? cap : (int64_t)d;
 }
 // ceil(|x|/unit) saturated at 2^30: the integer-quantised residual handed to the TLA+ side
+// VERIF_UNIT_SCALE (default 1) shrinks every unit: used only to measure how much margin the stated allowances leave
+inline double unit_scale()
+{
+	static double s = std::getenv("VERIF_UNIT_SCALE") ? std::atof(std::getenv("VERIF_UNIT_SCALE")) : 1.0;
+	return s > 0 ? s : 1.0;
+}
 inline int64_t quant(double x, double unit, int64_t cap = (1 << 30))
 {
 	if(std::isnan(x) || std::isnan(unit))
 		return cap;
-	double q = std::ceil(std::fabs(x) / unit);
+	double q = std::ceil(std::fabs(x) / (unit * unit_scale()));
 	if(!(q < (double)cap))
 		return cap;
 	return (int64_t)q;
